@@ -260,6 +260,9 @@ def tree_classes(d, w, first_trip_differs=True, skeleton=None):
             out.append('text-span-paint')
     if set(prefix) & c07.URL_BREAKERS:
         out.append('prefix-breaks-url')
+    # a clipPath child under two clipped group levels is not written (C07 class of the same name; predicate shared with c07.py)
+    if c07.double_clip_children(d):
+        out.append('clip-child-double-clip')
     # nested SVG image whose definitions collide with ids of the outer tree
     outer, inner = set(), set()
     for k, ptr, i, ctx, via in wk.defs:
